@@ -365,7 +365,17 @@ def b_range(I, args, kw):
     elif len(args) == 2:
         lo, hi = args
     else:
-        raise Unsupported("range with symbolic step")
+        lo, hi, st = args
+        lo_e, hi_e, st_e = I._num(lo, "int"), I._num(hi, "int"), I._num(st, "int")
+        if I.branch(SV(st_e == 0, "bool"), "range step is zero"):
+            I.raise_("ValueError", "range() arg 3 must not be zero")
+        if not I.branch(SV(st_e > 0, "bool"), "range step is positive"):
+            raise Unsupported("range with a symbolic negative step")
+        # n = ceil((hi - lo) / step) for hi > lo, else 0 - stated as linear-in-n facts
+        n = I.fresh("int", "range_len").e
+        d = hi_e - lo_e
+        I.assume(z3.If(d > 0, z3.And(n * st_e >= d, (n - 1) * st_e < d, n >= 1), n == 0))
+        return SymSeq("range", n, lambda i: SV(lo_e + i * st_e, "int"), kind="range")
     lo_e, hi_e = I._num(lo, "int"), I._num(hi, "int")
     n = z3.If(hi_e - lo_e > 0, hi_e - lo_e, 0)
     return SymSeq("range", n, lambda i: SV(lo_e + i, "int"), kind="range")
